@@ -138,12 +138,36 @@ CHECKS = {
 
 NOT_YET = "not claimed"
 
+# sentences added to a check's text after later widenings (kept apart so the table above stays readable)
+ADDENDA = {
+    "C01": "Identity forms include the leap days of century years that are leap years (000229, 2000-02-29, 2400-02-29).",
+    "C02": "Heavy decoration also carries one-letter link targets (X under every link kind but the ignored [^X]) and, behind a header's own date, a date-valued property and a date-named link (which are not the header's date).",
+    "C03": "Date ranges also use two-digit years 69..99; a 1100-note page is the target of link filters.",
+    "C04": "Relative dates are also compiled on a machine whose local calendar day is not the UTC calendar day (00:30 at UTC+2, 19:30 at UTC-8; the frozen clock's datetime.now(tz) is made faithful).",
+    "C05": "Items also carry create dates at a turn of the year (ISO week-year differs), a create date after 2099 (known finding), and raw bytes that are not valid UTF-8.",
+    "C06": "Two more initial states put the indexed directory on a machine whose local calendar day is not the UTC calendar day.",
+    "C07": "Allocation dates include days whose ISO week-based year is not their calendar year; command-level histories over {append a ZID-less note, db create, db reindex, delete the database file} must never write one ZID on two notes.",
+    "C08": "Contents include raw bytes that are not valid UTF-8 (ISO-8859-1 text, a stray 0xFF / 0x80, a cut multi-byte sequence, a BOM), at compile and at command level.",
+    "C09": "Two more indexes: one in which a note line was copied to another page (two notes share a ZID), one whose page paths contain '.zo' before the extension too.",
+    "C10": "The source page's header block carries property values with backslashes and values that merely look like a date / a ZID.",
+    "C11": "Two more initial states put the directory on a machine whose local calendar day is not the UTC calendar day.",
+    "C12": "Part 3 runs the real note move for 6 kind/priority forms x 7 tails x 3 source header blocks x {no marker, x, ~} and judges the text that arrived on the destination page.",
+    "C13": "Besides dying immediately BEFORE effect k, the command also dies the moment effect k's call has RETURNED (nothing still buffered in an open file reaches the disk, the database file that was just deleted has not been re-created); an eleventh scenario rebuilds an existing index (db create over an old database).",
+    "C14": "Rename pairs include names that are not in Unicode normal form C; one linking page is ISO-8859-1 (not valid UTF-8).",
+    "C15": "A slice of the referencing queries is also expanded with the notes directory spelled through a symlink, with a '..' and with a doubled slash.",
+    "C16": "One pattern's group takes part in the match but may capture nothing (target _log.zo).",
+    "C17": "One referenced ZID is owned by notes of two pages (either page may be opened); three prefixes put the first target directly after the item's prefix.",
+    "C18": "Besides a UTC machine at noon, expansion also runs where the local calendar day is not the UTC calendar day (00:30 at UTC+2, 19:30 at UTC-8).",
+}
+
 
 def main() -> None:
     props = [json.loads(l) for l in (VERIF / "properties.jsonl").read_text().splitlines() if l.strip()]
     checks = []
     for pid in sorted(CHECKS):
         level, technique, text, note, ref = CHECKS[pid]
+        if pid in ADDENDA:
+            text = text + " " + ADDENDA[pid]
         checks.append({
             "property_id": pid,
             "quick_cmd": f"./check {pid} --tier quick",
